@@ -321,3 +321,18 @@ Definition stops (rest : str) : bool :=
    either some whitespace separates them, or gluing them does not create a longer operator *)
 Definition clean_join (op w a : str) : bool :=
   negb (is_nil w) || forallb (fun l => implb (prefixb l (op ++ a)) (prefixb l op)) all_lits.
+
+(* further words of an n-ary operator: each is preceded by non-empty whitespace *)
+Definition seg (wa : str * str) : str := fst wa ++ snd wa.
+Definition item_ok (wa : str * str) : bool :=
+  negb (is_nil (fst wa)) && all_ws (fst wa) && atom_ok (snd wa).
+(* further alternatives of a disjunction: whitespace, the <or> literal, optional whitespace, a word *)
+Definition oseg (x : str * str * str) : str := fst (fst x) ++ or_lit ++ snd (fst x) ++ snd x.
+Definition oitem_ok (x : str * str * str) : bool :=
+  negb (is_nil (fst (fst x))) && all_ws (fst (fst x)) && all_ws (snd (fst x)) && atom_ok (snd x).
+(* what may follow the last word of <all-in> (resp. the last alternative of <or>): the end of
+   the text, or something that is not one more atom (resp. one more "<or> word") *)
+Definition ends_atoms (rest : str) : bool :=
+  stops rest && match p_atom rest with None => true | Some _ => false end.
+Definition ends_disj (rest : str) : bool :=
+  stops rest && match p_or_item rest with None => true | Some _ => false end.
